@@ -14,9 +14,12 @@ package agreement
 
 import (
 	"fmt"
+	"os"
+	"strings"
 	"testing"
 
 	"github.com/algorand/go-algorand/crypto"
+	"github.com/algorand/go-algorand/data/committee"
 	"github.com/algorand/go-algorand/protocol"
 )
 
@@ -120,6 +123,17 @@ func c01DoubleCrashScenario(t *testing.T, keySeed uint64) (res c01DCResult) {
 		}
 	}
 	// c01Observer has failed the test if anybody committed a second value for round 1
+	if os.Getenv("VERIF_DEBUG_DC") != "" {
+		os.WriteFile(os.Getenv("VERIF_DEBUG_DC"), []byte(strings.Join(s.trace, "\n")), 0o644)
+		for _, st := range []step{soft, cert, next, next + 1} {
+			for _, id := range s.ids {
+				m, _ := membership(s.ref, id.addr, 1, 0, st)
+				c, err := committee.MakeCredential(&id.vrf.SK, m.Selector).Verify(engaProto(), m)
+				fmt.Printf("DBG step %d id %d owner %d weight %d err %v\n", st, id.idx, id.owner, c.Weight, err != nil)
+			}
+		}
+		s.failf("debug dump")
+	}
 	res.Events = s.stats.events
 	res.RestoredStarts, res.FreshStarts, res.MaxPeriod = s.stats.restoredStarts, s.stats.freshStarts, s.stats.maxPeriod
 	for _, e := range s.ensures {
